@@ -183,6 +183,37 @@ static void pending_flush(int level, int gz, int cpu, int kind)
 							v_eval();
 							v_count("pending_flush_runs", 1);
 						}
+	/* steered variant: the flushing call gets its output ONE byte at a time until the codec sits exactly between the end-of-block symbol
+	 * and the flush marker (state read from the live object: steering only), and exactly then new input arrives with FULL_FLUSH and
+	 * ample output. Only FULL flushes are requested, so the end-of-stream check decodes from behind every marker. */
+	for (int ai = 0; ai < 3; ai++)
+		for (int bi = 1; bi < 6; bi++)
+			for (int ci = 0; ci < 2; ci++) {
+				if (nfail > 20)
+					return;
+				snprintf(ctxdesc, sizeof ctxdesc, "pending-marker input=%s:%d level=%d wrapper=%s cpu=%s first-segment=%d+FULL_FLUSH then %d bytes+FULL_FLUSH drained bytewise up to the marker, then %d new bytes+FULL_FLUSH",
+					 kind ? "channel-rows" : "log", XL, level, gz_name[gz], cpu_level_name[cpu], as[ai], bs[bi], ci ? 3000 : 500);
+				g_strict_free = 1;
+				def_reset(40);
+				ex_depth = 0;
+				int r = def_call(as[ai], -1, FULL_FLUSH, 0, NULL);
+				if (r == EX_NEXT)
+					r = def_call(bs[bi], 1, FULL_FLUSH, 0, NULL);
+				for (int k = 0; k < 30000 && r == EX_NEXT && DST->internal_state.state != ZSTATE_SYNC_FLUSH && DST->internal_state.state != ZSTATE_TMP_SYNC_FLUSH && DST->internal_state.state != ZSTATE_NEW_HDR; k++) {
+					DCUR.flush_budget = 40;
+					DCUR.zero_budget = 2;
+					r = def_call(0, 1, FULL_FLUSH, 0, NULL);
+				}
+				if (r == EX_NEXT) {
+					DCUR.flush_budget = 40;
+					r = def_call(ci ? 3000 : 500, -1, FULL_FLUSH, 0, NULL);
+				}
+				if (r == EX_NEXT || r == EX_SKIP)
+					def_finish_generously(NULL, 12);
+				g_strict_free = 0;
+				v_eval();
+				v_count("pending_marker_runs", 1);
+			}
 	v_nontrivial(v_hash(ctxdesc, strlen(ctxdesc), 6));
 }
 
